@@ -7,6 +7,7 @@ import (
 	"fmt"
 	"reflect"
 	"strings"
+	"testing"
 	"time"
 
 	"github.com/fiorix/go-diameter/diam"
@@ -208,3 +209,72 @@ func c08Schedules(rep *Report, pool *Pool) (per []map[string]any, execs int, exh
 	}
 	return
 }
+
+// C08, CHF side of "the tariff in the answer decodes at the CHF to the same unit cost the server applied": for every
+// stored unit-cost string the real CHF processes an online update (its own rating client, its own decoding in
+// getUnitCost) and the unit cost it then works with is compared with the price the server puts on one consumed unit.
+
+type c08ChfOut struct {
+	Finds   []Finding `json:"finds"`
+	Checked int       `json:"checked"`
+}
+
+func c08ChfJob(t *testing.T, raw json.RawMessage) (any, error) {
+	var a c08Args
+	json.Unmarshal(raw, &a)
+	var out c08ChfOut
+	cfg := WorldCfg{}
+	var supis []string
+	for i, c := range a.Costs {
+		supi := fmt.Sprintf("imsi-20893000000%04d", i)
+		supis = append(supis, supi)
+		cfg.Accounts = append(cfg.Accounts, Account{supi, 1, "100000", c})
+	}
+	o := runWorld(t, cfg, nil, func(w *World) {
+		vs.Go("T1", func() {
+			for i, cost := range a.Costs {
+				// what the server applies: the price of one consumed unit
+				cli, err := dialPeer("127.0.0.1:3868", "SUA")
+				if err != nil {
+					out.Finds = append(out.Finds, Finding{"engine-setup", err.Error()})
+					return
+				}
+				req := &cd.ServiceUsageRequest{SessionId: "rate-1", OriginHost: "verif-client", OriginRealm: "go-diameter", DestinationRealm: "go-diameter", DestinationHost: "server",
+					UserName: datatype.OctetString("CHF"), ActualTime: datatype.Time(time.Now()),
+					SubscriptionId: &cd.SubscriptionId{SubscriptionIdType: cd.END_USER_IMSI, SubscriptionIdData: datatype.UTF8String(strings.TrimPrefix(supis[i], "imsi-"))},
+					ServiceRating:  &cd.ServiceRating{ServiceIdentifier: 1, RequestSubType: cd.REQ_SUBTYPE_DEBIT}}
+				reflect.ValueOf(req.ServiceRating).Elem().FieldByName("ConsumedUnits").SetUint(1)
+				m, _ := cli.exchange(charging_code.ServiceUsageMessage, req)
+				cli.conn.Close()
+				if m == nil {
+					continue // (an unanswered request is the sequential part's finding)
+				}
+				var sua cd.ServiceUsageResponse
+				if m.Unmarshal(&sua) != nil || sua.ServiceRating == nil {
+					continue
+				}
+				applied := reflect.ValueOf(sua.ServiceRating).Elem().FieldByName("Price").Uint()
+				// what the CHF decodes: an online update through the real processor
+				h := w.ExecOps(supis, []Op{func() Op { c := mkCreate(i, "smf1"); return c }(), usageOp("update", 0, 1, 10, 0, int32(100+i))}, 1<<30, false)
+				_ = h
+				s := w.Snapshot(false)
+				got, ok := s.UEs[supis[i]].UnitCost[1]
+				if !ok {
+					continue
+				}
+				out.Checked++
+				if uint64(got) != applied {
+					out.Finds = append(out.Finds, Finding{"chf-decodes-other-unit-cost-than-applied/" + costClass(cost), fmt.Sprintf("stored unit cost %q: the rating server prices one unit at %d, the CHF works with a unit cost of %d", cost, applied, got)})
+				}
+				// release the session again (keeps the histories independent)
+				w.ExecOps(supis, nil, 1<<30, false)
+			}
+		})
+	}, nil)
+	if o.Panic != "" || o.Res.Err != "" {
+		return nil, fmt.Errorf("engine: %s %s", o.Panic, o.Res.Err)
+	}
+	return out, nil
+}
+
+func init() { jobHandlers["c08chf"] = c08ChfJob }
